@@ -31,6 +31,9 @@ class FlowGen:
     def text(self, base):
         rng = self.rng
         s = base
+        if rng.random() < 0.5:
+            # long shared prefixes: readable row ids (first 15 mangled characters) collide across nodes
+            s = rng.choice(["Thank you for your feedback, ", "Thank you for your honesty, ", "Please tell us more about "]) + base
         if self.special and rng.random() < 0.5:
             s = s + " " + rng.choice(SPECIAL)
             if rng.random() < 0.3:
